@@ -74,6 +74,10 @@ fn probe(sc: &Scenario, reps: usize) -> Option<(isize, [isize; 4])> {
                         g.max_opcodes = *b;
                     }
                     HOp::SetRate(r) => g.mutation_rate = *r,
+                    HOp::SetFlags(e, b) => {
+                        g.allow_ext_opcodes = *e;
+                        g.allow_buffer_opcodes = *b;
+                    }
                     HOp::Gen(Entropy::Rand(s)) => {
                         g.seed = Some(*s);
                         drop(g.generate());
